@@ -396,6 +396,8 @@ impl QuorumSamplingStrategy for DecayingAcceptanceSampler {
     }
 
     fn sample_quorum<R: Rng>(&self, rng: &mut R) -> Vec<ValidatorIndex> {
+        // start from clean counters, single draws via `sample` may have left some behind
+        self.reset();
         let samples = (0..self.k).map(|_| self.sample_one(rng)).collect();
         self.reset();
         samples
